@@ -68,3 +68,9 @@ Theorem C07_text_canonical_silent_core3 :
     TokRound2.nums_ok2_l numcanon TokRound2Ex.ex_idnum (dsections d) -> Forall (TokRound2.field_num_ok numcanon) (dmeta d) ->
     exists warns, parse_model cls numcanon holo_ok strict (lines_of (emit sp d)) = PRDoc d [] warns /\ Forall advisory warns.
 Proof. exact BareWord.text_roundtrip_core3. Qed.
+
+(* the grammar sentinel is tried exactly at the end of the leading blank lines (Lexer.init_state is written against this text) *)
+Theorem C07_pin_lexer_sentinel :
+  lexer_sentinel_guard = pinned_lexer_sentinel_guard /\ lexer_sentinel_pos = pinned_lexer_sentinel_pos /\
+  lexer_leading_blank_pattern = pinned_lexer_leading_blank_pattern.
+Proof. exact (conj pin_lexer_sentinel_guard (conj pin_lexer_sentinel_pos pin_lexer_leading_blank_pattern)). Qed.
